@@ -132,4 +132,54 @@ theorem callRun_total (s : Step) (h : s.timed = true) (timeout : Nat) (deadline 
       have : timeout ≤ (ks.length + 1 + 1) * timeout := Nat.le_mul_of_pos_left _ (by omega)
       omega
 
+theorem callRun_done (s : Step) (h : s.timed = true) (timeout : Nat) (deadline : Option Nat)
+    (skips : List Nat) (final : Option Nat) :
+    ∀ start t, (callRun s timeout deadline skips final start).2 = some t →
+      t ≤ start + (skips.length + 1) * timeout := by
+  induction skips with
+  | nil =>
+    intro start t ht
+    obtain ⟨u, hu, h1, h2⟩ := ioEnd_timed s h start timeout deadline final
+    simp only [callRun] at ht
+    split at ht
+    · rename_i t' heq
+      rw [heq] at hu; simp only [Option.some.injEq] at hu ht; subst hu; subst ht
+      simp; omega
+    · simp at ht
+  | cons k ks ih =>
+    intro start t ht
+    obtain ⟨u, hu, h1, h2⟩ := ioEnd_timed s h start timeout deadline (some k)
+    simp only [callRun] at ht
+    split at ht
+    · rename_i t' heq
+      rw [heq] at hu; simp only [Option.some.injEq] at hu; subst hu
+      split at ht
+      · have := ih t' t ht
+        simp only [List.length_cons]
+        have : (ks.length + 1 + 1) * timeout = (ks.length + 1) * timeout + timeout := by
+          rw [Nat.add_mul, Nat.one_mul]
+        omega
+      · simp at ht
+    · simp at ht
+
+theorem runTrace_total (timeout : Nat) (deadline : Option Nat) (sched : List (Step × Beh)) :
+    (∀ x ∈ sched, x.1.timed = true) → ∀ now, ∀ e ∈ runTrace timeout deadline sched now,
+      ∃ t, e.stop = some t ∧ t ≤ now + budget timeout sched := by
+  induction sched with
+  | nil => intro _ now e he; simp [runTrace] at he
+  | cons x rest ih =>
+    intro hall now e he
+    obtain ⟨s, b⟩ := x
+    have hs : s.timed = true := hall (s, b) (by simp)
+    have hc := callRun_total s hs timeout deadline b.skips b.final (now + b.gap)
+    simp only [runTrace] at he
+    simp only [budget]
+    split at he
+    · rename_i t ht
+      rcases List.mem_append.mp he with h' | h'
+      · obtain ⟨u, hu, hb⟩ := hc e h'; exact ⟨u, hu, by omega⟩
+      · have hd := callRun_done s hs timeout deadline b.skips b.final (now + b.gap) t ht
+        obtain ⟨u, hu, hb⟩ := ih (fun y hy => hall y (List.mem_cons_of_mem _ hy)) t e h'
+        exact ⟨u, hu, by omega⟩
+    · obtain ⟨u, hu, hb⟩ := hc e he; exact ⟨u, hu, by omega⟩
 end TdModel.C12
